@@ -41,7 +41,7 @@ def one(name):
         subprocess.call(['git', '-C', '/repo', 'worktree', 'remove', '--force', wt])
 
 
-with ThreadPoolExecutor(8) as ex:
+with ThreadPoolExecutor(int(os.environ.get("SA_JOBS", "8"))) as ex:
     for name, hits in ex.map(one, names):
         if hits is None:
             continue
